@@ -86,3 +86,99 @@ theorem geometricAdd_inv {a b : Angle F} (ha : a.Inv) (hb : b.Inv) : (a.geometri
 
 end Angle
 end GeonumModel
+
+namespace GeonumModel
+open FloatLike FloatSpec
+variable {F : Type} [FloatSpec F]
+namespace Angle
+
+/-- refinement of `geometricAdd_spec`: either the sum snapped (then its remainder has value 0), or the total is off only by the
+    rounding of the one addition (`< 1e-15`) -/
+theorem geometricAdd_snap_or_exact {a b : Angle F} (ha : a.Inv) (hb : b.Inv) :
+    val (a.geometricAdd b).rem = 0 ∨
+    |(val (a.geometricAdd b).rem + (((a.geometricAdd b).blade : ℝ) - ((a.blade + b.blade : ℕ) : ℝ)) * val (qp : F))
+        - (val a.rem + val b.rem)| < 1 / 10 ^ 15 := by
+  obtain ⟨har, ha0, ha1⟩ := ha
+  obtain ⟨hbr, hb0, hb1⟩ := hb
+  have hq := val_qp_gt (F := F); have hq' := val_qp_lt (F := F)
+  have he := val_e10_pos (F := F); have e10lb := (val_e10_bounds (F := F)).1
+  have hsum0 : 0 ≤ val a.rem + val b.rem := by linarith
+  have hsum4 : val a.rem + val b.rem ≤ 4 := by linarith
+  obtain ⟨hft, hvt⟩ := fadd_spec har hbr (inRange_of_abs_le_1000 (by rw [abs_of_nonneg hsum0]; linarith))
+  have hc := rnd_close (F := F) (val a.rem + val b.rem)
+  rw [abs_of_nonneg hsum0, ← hvt, abs_le] at hc
+  have h53 : (val a.rem + val b.rem) / 2 ^ 53 ≤ 4 / 2 ^ 53 := div_le_div_of_nonneg_right hsum4 (by positivity)
+  have hslack := slack_lt
+  have ht0 : 0 ≤ val (fadd a.rem b.rem) := by rw [hvt]; exact rnd_nonneg hsum0
+  have hnum : (1:ℝ) / 10 ^ 15 < 9 / 10 ^ 11 := by norm_num
+  have ht1 : val (fadd a.rem b.rem) + val (e10 : F) ≤ 2 * val (qp : F) := by linarith
+  have hterr : |val (fadd a.rem b.rem) - (val a.rem + val b.rem)| < 1 / 10 ^ 15 := by
+    rw [abs_lt]; constructor <;> linarith
+  unfold geometricAdd
+  simp only
+  by_cases hz : feq (fadd a.rem b.rem) zero = true
+  · rw [if_pos hz]; left; exact val_zero
+  · rw [if_neg hz]
+    by_cases h15 : flt (fabs (fsub (fadd a.rem b.rem) qp)) e15 = true
+    · rw [if_pos h15]; left; exact val_zero
+    · rw [if_neg h15]
+      obtain ⟨_, hcase⟩ := normalizeBoundaries_spec (fadd a.rem b.rem) (a.blade + b.blade) hft ht0 ht1
+      rcases hcase with ⟨h, _⟩ | ⟨h, _⟩ | ⟨hbl, hrem, _⟩
+      · right; rw [h]; simp only [sub_self, zero_mul, add_zero]; exact hterr
+      · left; rw [h]; exact val_zero
+      · right; rw [hbl, hrem]; push_cast
+        have e : val (fadd a.rem b.rem) - val (qp : F) + ((a.blade : ℝ) + (b.blade : ℝ) + 1 - ((a.blade : ℝ) + (b.blade : ℝ))) * val (qp : F)
+            - (val a.rem + val b.rem) = val (fadd a.rem b.rem) - (val a.rem + val b.rem) := by ring
+        rw [e]; exact hterr
+
+end Angle
+end GeonumModel
+
+namespace GeonumModel
+open FloatLike FloatSpec
+variable {F : Type} [FloatSpec F]
+namespace Angle
+
+/-- when the sum did not carry, its remainder is the rounded sum of the remainders, hence at least either operand's remainder -/
+theorem geometricAdd_nocarry_rem {a b : Angle F} (ha : a.Inv) (hb : b.Inv)
+    (hnc : (a.geometricAdd b).blade = a.blade + b.blade) :
+    val b.rem ≤ val (a.geometricAdd b).rem ∧ val a.rem ≤ val (a.geometricAdd b).rem := by
+  obtain ⟨har, ha0, ha1⟩ := ha
+  obtain ⟨hbr, hb0, hb1⟩ := hb
+  have hq := val_qp_gt (F := F); have hq' := val_qp_lt (F := F)
+  have he := val_e10_pos (F := F); have e10lb := (val_e10_bounds (F := F)).1
+  have hsum0 : 0 ≤ val a.rem + val b.rem := by linarith
+  have hsum4 : val a.rem + val b.rem ≤ 4 := by linarith
+  obtain ⟨hft, hvt⟩ := fadd_spec har hbr (inRange_of_abs_le_1000 (by rw [abs_of_nonneg hsum0]; linarith))
+  have hgeb : val b.rem ≤ val (fadd a.rem b.rem) := by
+    rw [hvt]; have := rnd_mono (F := F) (show val b.rem ≤ val a.rem + val b.rem by linarith)
+    rwa [rnd_val hbr] at this
+  have hgea : val a.rem ≤ val (fadd a.rem b.rem) := by
+    rw [hvt]; have := rnd_mono (F := F) (show val a.rem ≤ val a.rem + val b.rem by linarith)
+    rwa [rnd_val har] at this
+  have hc := rnd_close (F := F) (val a.rem + val b.rem)
+  rw [abs_of_nonneg hsum0, ← hvt, abs_le] at hc
+  have h53 : (val a.rem + val b.rem) / 2 ^ 53 ≤ 4 / 2 ^ 53 := div_le_div_of_nonneg_right hsum4 (by positivity)
+  have hslack := slack_lt
+  have ht0 : 0 ≤ val (fadd a.rem b.rem) := by linarith
+  have hnum : (1:ℝ) / 10 ^ 15 < 9 / 10 ^ 11 := by norm_num
+  have ht1 : val (fadd a.rem b.rem) + val (e10 : F) ≤ 2 * val (qp : F) := by linarith
+  unfold geometricAdd at hnc ⊢
+  simp only at hnc ⊢
+  by_cases hz : feq (fadd a.rem b.rem) zero = true
+  · rw [if_pos hz]
+    have hz' := (feq_spec hft fin_zero).mp hz
+    rw [val_zero] at hz' ⊢
+    constructor <;> linarith
+  · rw [if_neg hz] at hnc ⊢
+    by_cases h15 : flt (fabs (fsub (fadd a.rem b.rem) qp)) e15 = true
+    · rw [if_pos h15] at hnc; simp only at hnc; omega
+    · rw [if_neg h15] at hnc ⊢
+      obtain ⟨_, hcase⟩ := normalizeBoundaries_spec (fadd a.rem b.rem) (a.blade + b.blade) hft ht0 ht1
+      rcases hcase with ⟨h, _⟩ | ⟨h, _⟩ | ⟨hbl, _, _⟩
+      · rw [h]; exact ⟨hgeb, hgea⟩
+      · rw [h] at hnc; simp only at hnc; omega
+      · rw [hbl] at hnc; omega
+
+end Angle
+end GeonumModel
